@@ -83,6 +83,16 @@ CHECKS = [
            'generated and its whole tree compared with the catalogue JSON; the combined enumeration is checked to be a bijection.',
       note='Oracle data are read from the same JSON files the library ships (the property is agreement with the catalogue). The grid is '
            'complete for the stated value set; requests between grid values behave like a grid neighbour by monotonicity of the filter.'),
+ dict(property_id='C17', engine='E2-enum', level='exploration',
+      technique='model checking: exhaustive enumeration of edit scripts (all singles, all ordered pairs, thorough: triples) over base slivers against an independent reference comparison',
+      text='Eleven base slivers (nodes with 0-2 components incl. a SmartNIC with sub-interfaces and 0-2 node-level services; services '
+           'with plain/dedicated/shared ports; ports with sub-interfaces) x every single edit and every ordered pair of edits (add/remove '
+           'component, node-level service, interface, sub-interface; set each tracked property of every element of the tree to two '
+           'values or unset; equal-valued user data on both sides; no edit). NodeSliver/NetworkServiceSliver/InterfaceSliver.diff in '
+           'both directions is compared with a value-based reference comparison written independently of the library (added/removed '
+           'names, exact flag sets, None iff nothing differs, added(old->new) = removed(new->old)).',
+      note='Trusted base: the ~80-line reference comparison in checks/c17.py. SUB_INTERFACES is three-valued where only a port\'s or a '
+           'SmartNIC service\'s own properties differ. Topology-level diff (Neo4j only) is out of scope of the property\'s anchors.'),
 ]
 _claimed = {c['property_id'] for c in CHECKS}
 NOT_APPLICABLE = [dict(property_id=p, reason='check not built yet in this revision (work in progress; model checking applies, see DESIGN.md)')
